@@ -2,7 +2,7 @@
 from mc.props import _cellprop
 from mc.worlds import cellcfg, cellmon
 
-BUDGET = {'quick': 60, 'thorough': 600}
+BUDGET = {'quick': 240, 'thorough': 900}
 HASH_INSENSITIVE = True
 
 
